@@ -19,6 +19,7 @@ package main
 // it is handled, runs such cases under an exclusive lock and restores the variables afterwards.
 
 import (
+	"bufio"
 	"bytes"
 	"context"
 	"database/sql"
@@ -137,7 +138,12 @@ type c07Case struct {
 	// panic("…") values: index into c07Decor, appended to the marker
 	PanicDec int `json:"panic_dec,omitempty"`
 	// optional interfaces of the UNDERLYING writer, as net/http's connection writer has them
-	// (httptest.ResponseRecorder has none): bit 1 io.ReaderFrom, bit 2 io.StringWriter + FlushError
+	// (httptest.ResponseRecorder has none): bit 1 io.ReaderFrom, bit 2 io.StringWriter + FlushError;
+	// round 8: bit 4 NO Flush method (http.TimeoutHandler's writer, many third-party wrappers: with
+	// neither Flush nor FlushError echo's Response.Flush commits and then panics), bit 8 the writer is
+	// handed in behind a wrapper that offers nothing but Unwrap() (http.ResponseController finds the
+	// capabilities through it, a type assertion does not), bit 16 http.Hijacker + http.Pusher (must
+	// never be used by the error path: the client would not receive the response)
 	Caps int `json:"caps,omitempty"`
 	// where the error is raised: "" in the route's handler | pre | use | group: in a middleware
 	// that sits innermost at that level (so only the layers of that level and outside see it);
@@ -154,9 +160,18 @@ var c07StdErrs = []error{
 	http.ErrAbortHandler, http.ErrHandlerTimeout, http.ErrServerClosed, http.ErrBodyNotAllowed, http.ErrNoCookie,
 	os.ErrNotExist, os.ErrDeadlineExceeded, net.ErrClosed, sql.ErrNoRows,
 	echo.ErrValidatorNotRegistered, echo.ErrRendererNotRegistered, echo.ErrInvalidRedirectCode, echo.ErrCookieNotFound,
+	errC07NoFlush,
 }
 
+// the text echo's Response.Flush panics with on a writer that cannot flush (In == "noflush": echo
+// raises its own value with this text; as an ordinary plain error it is just another text)
+var errC07NoFlush = errors.New("response writer flushing is not supported")
+
 const c07StdAbort = 6 // http.ErrAbortHandler
+const c07StdNoFlush = 19
+
+// can the underlying writer be flushed at all (Flush, or FlushError which http.ResponseController prefers)?
+func c07NoFlush(caps int) bool { return caps&4 != 0 && caps&2 == 0 }
 
 // echo's exported *HTTPError variables; an error tree may use them only with increasing index
 // from the outside in (no cycles through SetInternal)
@@ -664,11 +679,14 @@ func c07EncLayer(rq *c07Case, i int, l c07Layer) string {
 func c07OpsOne(cfg, c *c07Case, raised *c07Err) string {
 	pre := map[string]int{"": 0, "wrote": 1, "nocontent": 2, "flush": 3, "jsonbad": 4, "writeheader": 5}[c07PreCat(c.Pre)]
 	preCode := c.PreCode
-	if c.In != "" {
+	switch c.In {
+	case "hook", "writer":
 		pre = 6 // the commit of the pre-step is aborted by a panic
 		if preCode < 0 {
 			preCode = 1000000 - preCode
 		}
+	case "noflush":
+		pre, preCode = 7, 9000+c07StdNoFlush // commit, then Response.Flush panics with the error of that text
 	}
 	layers := c07Effective(cfg, c)
 	parts := []string{wBool(cfg.Debug), wBool(c.Method == http.MethodHead), wInt(len(layers))}
@@ -703,6 +721,8 @@ type c07Writer struct {
 	// refuse status codes outside 100..999 like net/http's writer: panic before recording
 	strict bool
 	atom   int // named in the panic text
+	// what reached the optional interfaces
+	flushes, hijacks, pushes int
 }
 
 var errC07Write = errors.New("underlying writer: connection lost")
@@ -727,6 +747,8 @@ func (w *c07Writer) Write(b []byte) (int, error) {
 // optional interfaces of the underlying writer (Caps)
 type c07mR struct{ w *c07Writer }
 type c07mX struct{ w *c07Writer }
+type c07mF struct{ w *c07Writer }
+type c07mH struct{ w *c07Writer }
 
 func (m c07mR) ReadFrom(src io.Reader) (int64, error) {
 	buf := make([]byte, 32*1024)
@@ -749,31 +771,140 @@ func (m c07mR) ReadFrom(src io.Reader) (int64, error) {
 	}
 }
 func (m c07mX) WriteString(s string) (int, error) { return m.w.Write([]byte(s)) }
-func (m c07mX) FlushError() error                 { m.w.Flush(); return nil }
+func (m c07mX) FlushError() error                 { m.w.flush(); return nil }
+func (m c07mF) Flush()                            { m.w.flush() }
 
-func c07Under(w *c07Writer, caps int) http.ResponseWriter {
-	switch caps & 3 {
-	case 1:
-		return struct {
-			*c07Writer
-			c07mR
-		}{w, c07mR{w}}
-	case 2:
-		return struct {
-			*c07Writer
-			c07mX
-		}{w, c07mX{w}}
-	case 3:
-		return struct {
-			*c07Writer
-			c07mR
-			c07mX
-		}{w, c07mR{w}, c07mX{w}}
-	}
-	return w
+var errC07Hijack = errors.New("recording writer: no connection to hand out")
+
+func (m c07mH) Hijack() (net.Conn, *bufio.ReadWriter, error) {
+	m.w.hijacks++
+	return nil, nil, errC07Hijack
+}
+func (m c07mH) Push(target string, opts *http.PushOptions) error {
+	m.w.pushes++
+	return http.ErrNotSupported
 }
 
-func (w *c07Writer) Flush() {
+// a writer wrapper as middleware and libraries write them: the three methods plus Unwrap
+type c07Wrap struct{ inner http.ResponseWriter }
+
+func (u c07Wrap) Header() http.Header         { return u.inner.Header() }
+func (u c07Wrap) WriteHeader(code int)        { u.inner.WriteHeader(code) }
+func (u c07Wrap) Write(b []byte) (int, error) { return u.inner.Write(b) }
+func (u c07Wrap) Unwrap() http.ResponseWriter { return u.inner }
+
+// c07Under: the recording core with exactly the optional interfaces Caps asks for (16 distinct
+// dynamic types), behind an Unwrap-only wrapper for bit 8
+func c07Under(w *c07Writer, caps int) http.ResponseWriter {
+	u := c07Core(w, caps&4 == 0, caps&1 != 0, caps&2 != 0, caps&16 != 0)
+	if caps&8 != 0 {
+		return c07Wrap{u}
+	}
+	return u
+}
+
+func c07Core(w *c07Writer, fl, rf, x, hj bool) http.ResponseWriter {
+	f, r, xx, h := c07mF{w}, c07mR{w}, c07mX{w}, c07mH{w}
+	switch {
+	case fl && rf && x && hj:
+		return struct {
+			*c07Writer
+			c07mF
+			c07mR
+			c07mX
+			c07mH
+		}{w, f, r, xx, h}
+	case fl && rf && x:
+		return struct {
+			*c07Writer
+			c07mF
+			c07mR
+			c07mX
+		}{w, f, r, xx}
+	case fl && rf && hj:
+		return struct {
+			*c07Writer
+			c07mF
+			c07mR
+			c07mH
+		}{w, f, r, h}
+	case fl && x && hj:
+		return struct {
+			*c07Writer
+			c07mF
+			c07mX
+			c07mH
+		}{w, f, xx, h}
+	case rf && x && hj:
+		return struct {
+			*c07Writer
+			c07mR
+			c07mX
+			c07mH
+		}{w, r, xx, h}
+	case fl && rf:
+		return struct {
+			*c07Writer
+			c07mF
+			c07mR
+		}{w, f, r}
+	case fl && x:
+		return struct {
+			*c07Writer
+			c07mF
+			c07mX
+		}{w, f, xx}
+	case fl && hj:
+		return struct {
+			*c07Writer
+			c07mF
+			c07mH
+		}{w, f, h}
+	case rf && x:
+		return struct {
+			*c07Writer
+			c07mR
+			c07mX
+		}{w, r, xx}
+	case rf && hj:
+		return struct {
+			*c07Writer
+			c07mR
+			c07mH
+		}{w, r, h}
+	case x && hj:
+		return struct {
+			*c07Writer
+			c07mX
+			c07mH
+		}{w, xx, h}
+	case fl:
+		return struct {
+			*c07Writer
+			c07mF
+		}{w, f}
+	case rf:
+		return struct {
+			*c07Writer
+			c07mR
+		}{w, r}
+	case x:
+		return struct {
+			*c07Writer
+			c07mX
+		}{w, xx}
+	case hj:
+		return struct {
+			*c07Writer
+			c07mH
+		}{w, h}
+	}
+	return w // Header, WriteHeader, Write: nothing else
+}
+
+// a flush that reached the underlying writer
+func (w *c07Writer) flush() {
+	w.flushes++
 	if len(w.calls) == 0 {
 		w.calls = append(w.calls, -200)
 	}
@@ -1225,6 +1356,16 @@ func c07Normalise(rq *c07Case) {
 	default:
 		rq.In = ""
 	}
+	// Response.Flush — also when reached through http.ResponseController or the FlushError probe:
+	// echo.Response offers only Flush — on a writer that cannot flush commits and then panics with
+	// echo's own error value: that panic, not what the handler was going to do next, is what the chain sees
+	if rq.In == "" && c07NoFlush(rq.Caps) && c07PreCat(rq.Pre) == "flush" {
+		rq.In, rq.Panic, rq.PanicT, rq.PanicDec = "noflush", "err", 0, 0
+		rq.Err = &c07Err{K: "plain", Std: c07StdNoFlush}
+		if rq.From == "after" {
+			rq.From = "" // the handler itself fails
+		}
+	}
 	if rq.In != "writer" && rq.Pre != "" && c07PreCat(rq.Pre) != "flush" && (rq.PreCode < 100 || rq.PreCode > 999) {
 		rq.PreCode = 200 // codes the writer would refuse only with In == writer
 	}
@@ -1420,7 +1561,7 @@ func c07One(e *echo.Echo, cfg, c *c07Case, raised *c07Err, st *c07State, tagSet 
 	want := c07Travel(layers, c, carried)
 	head := c.Method == http.MethodHead
 	preCat := c07PreCat(c.Pre)
-	preCommitted := (preCat == "wrote" || preCat == "nocontent" || preCat == "flush" || preCat == "writeheader") && c.In == ""
+	preCommitted := (preCat == "wrote" || preCat == "nocontent" || preCat == "flush" || preCat == "writeheader") && (c.In == "" || c.In == "noflush")
 	var body []byte
 	for _, ch := range w.chunks {
 		body = append(body, ch...)
@@ -1555,6 +1696,10 @@ func c07One(e *echo.Echo, cfg, c *c07Case, raised *c07Err, st *c07State, tagSet 
 					if got != st.repl[want.replBy] {
 						fail("Echo.HTTPErrorHandler was given %v, not the error LogErrorFunc returned", got)
 					}
+				case c.In == "noflush":
+					if got == nil || got.Error() != errC07NoFlush.Error() {
+						fail("Echo.HTTPErrorHandler was given %v, not the error Response.Flush panicked with", got)
+					}
 				case c.Panic == "" || c.Panic == "err":
 					if c.Via == "" && got != st.raised {
 						fail("Echo.HTTPErrorHandler was given %v, not the error the handler raised", got)
@@ -1575,7 +1720,11 @@ func c07One(e *echo.Echo, cfg, c *c07Case, raised *c07Err, st *c07State, tagSet 
 					fail("LogErrorFunc of the catching Recover (layer %d) must run exactly once, ran %d times", want.catcher, len(st.logFn))
 				} else {
 					got := st.logFn[0]
-					if c.Panic == "err" && got.err != st.raised {
+					if c.In == "noflush" {
+						if got.err == nil || got.err.Error() != errC07NoFlush.Error() {
+							fail("LogErrorFunc was given %v, not the error Response.Flush panicked with", got.err)
+						}
+					} else if c.Panic == "err" && got.err != st.raised {
 						fail("LogErrorFunc was given %v, not the error value the handler panicked with", got.err)
 					}
 					if (got.stack > 0) == l.NoStack {
@@ -1591,9 +1740,20 @@ func c07One(e *echo.Echo, cfg, c *c07Case, raised *c07Err, st *c07State, tagSet 
 		}
 	}
 
+	// the optional interfaces of the underlying writer: error handling must not take the connection
+	// away from net/http (the client would not receive the response) nor push; a writer that cannot
+	// flush is never flushed
+	if w.hijacks != 0 || w.pushes != 0 {
+		fail("error handling used http.Hijacker / http.Pusher of the underlying writer (%d / %d calls): the client does not receive the response over this connection", w.hijacks, w.pushes)
+	}
+
 	// real server round trip: what a client gets is what the recording writer saw
-	if cfg == c && c.RoundTrip && len(c.Then) == 0 && !want.crash && !crashed && !exclusive && c.Ctx == "" && !c.WFail && c.In != "writer" {
+	if cfg == c && c.RoundTrip && len(c.Then) == 0 && !want.crash && !crashed && !exclusive && c.Ctx == "" && !c.WFail && c.In != "writer" &&
+		(c.Caps&4 == 0 || c07NoFlush(c.Caps)) {
 		tag("round-trip")
+		if c07NoFlush(c.Caps) {
+			tag("round-trip-behind-http.TimeoutHandler")
+		}
 		if msg := c07RoundTrip(c, status, body); msg != "" {
 			fail("%s", msg)
 		}
@@ -1651,7 +1811,7 @@ func c07One(e *echo.Echo, cfg, c *c07Case, raised *c07Err, st *c07State, tagSet 
 	if c.From != "" {
 		tag("raised-in-middleware:" + c.From)
 	}
-	if c.In != "" {
+	if c.In == "hook" || c.In == "writer" {
 		tag("panic-inside-commit:" + c.In)
 	}
 	if c.Pre != c07PreCat(c.Pre) {
@@ -1662,6 +1822,20 @@ func c07One(e *echo.Echo, cfg, c *c07Case, raised *c07Err, st *c07State, tagSet 
 	}
 	if c.Caps&2 != 0 {
 		tag("underlying-writer-is-StringWriter+FlushError")
+	}
+	if c07NoFlush(c.Caps) {
+		tag("underlying-writer-is-no-Flusher")
+	} else if c.Caps&4 != 0 {
+		tag("underlying-writer-flushes-through-FlushError-only")
+	}
+	if c.Caps&8 != 0 {
+		tag("underlying-writer-behind-Unwrap-only-wrapper")
+	}
+	if c.Caps&16 != 0 {
+		tag("underlying-writer-is-Hijacker+Pusher")
+	}
+	if c.In == "noflush" {
+		tag("Response.Flush-panics-after-commit")
 	}
 	if c.Ctx != "" {
 		tag("request-context-" + c.Ctx)
@@ -1710,7 +1884,14 @@ func c07RoundTrip(c *c07Case, status int, body []byte) string {
 	st := &c07State{}
 	e := c07NewEcho(c, st)
 	st.reset(c)
-	srv := httptest.NewServer(e)
+	var app http.Handler = e
+	if c07NoFlush(c.Caps) {
+		// the standard library's own writer without Flush: echo mounted under http.TimeoutHandler
+		app = http.TimeoutHandler(e, time.Minute, "timeout")
+	}
+	srv := httptest.NewUnstartedServer(app)
+	srv.Config.ErrorLog = stdlog.New(io.Discard, "", 0)
+	srv.Start()
 	defer srv.Close()
 	req, _ := http.NewRequest(c.Method, srv.URL+"/g/x", nil)
 	if c.Via == "404" {
@@ -1906,6 +2087,15 @@ func c07GenRequest(r *rand.Rand, cfg *c07Case, maxDepth int) *c07Case {
 	}
 	c.Caps = []int{0, 1, 1, 2, 3, 3}[r.Intn(6)]
 	if r.Intn(3) == 0 {
+		c.Caps |= 4 // no Flush method
+	}
+	if r.Intn(6) == 0 {
+		c.Caps |= 8 // behind an Unwrap-only wrapper
+	}
+	if r.Intn(6) == 0 {
+		c.Caps |= 16 // Hijacker + Pusher
+	}
+	if r.Intn(3) == 0 {
 		c.Pre = []string{"wrote", "nocontent", "flush", "jsonbad", "writeheader", "copy", "copy", "copywt", "wstring", "stream", "rcflush", "feflush"}[r.Intn(12)]
 		if c.Pre != "flush" {
 			c.PreCode = g.code()
@@ -1965,7 +2155,7 @@ func c07GenCase(r *rand.Rand, maxDepth int) *c07Case {
 }
 
 func c07Gen(r *rand.Rand, tier string) []any {
-	n, depth, nrt := 3000, 3, 0
+	n, depth, nrt := 3000, 3, 40
 	if tier == "thorough" {
 		n, depth, nrt = 60000, 5, 3000
 	}
@@ -2052,12 +2242,16 @@ func c07Gen(r *rand.Rand, tier string) []any {
 	out = append(out, c07GenCommitPanics(r)...)
 	out = append(out, c07GenFastPaths(r)...)
 	out = append(out, c07GenKnobs(r)...)
+	out = append(out, c07GenCaps(r)...)
 	for i := 0; i < nrt; i++ {
 		c := c07GenCase(r, depth)
 		for c07UsesSent(c.Err) || c.Ctx != "" || c.WFail {
 			c = c07GenCase(r, depth)
 		}
 		c.RoundTrip = true
+		if i%2 == 1 {
+			c.Caps = c.Caps&^2 | 4 // behind http.TimeoutHandler, whose writer has no Flush
+		}
 		out = append(out, c)
 	}
 	return out
@@ -2400,6 +2594,60 @@ func c07GenKnobs(r *rand.Rand) []any {
 	return out
 }
 
+// the optional capabilities of the underlying writer x what the error path might want from them:
+// writers without Flush (plain; with io.ReaderFrom; with FlushError only), behind an Unwrap-only
+// wrapper, with Hijacker + Pusher — x chains with and without Recover x returned / panicked x
+// the failing code flushed first (on a writer that cannot flush that IS the failure: Response.Flush
+// commits, then panics), wrote first, preset a status, or did nothing; followed by an ordinary
+// failing request on a full-featured writer and by the same failure on the same kind of writer
+func c07GenCaps(r *rand.Rand) []any {
+	var out []any
+	g := &c07G{r: r, next: 2800}
+	chains := [][]c07Layer{
+		{{K: "recover", Default: true}},
+		nil,
+		{{K: "recover", NoStack: true, LogFn: "same"}},
+		{{K: "cerr", Ret: true}, {K: "recover", DisableEH: true, NoStack: true}},
+		{{K: "recover", Default: true}, {K: "recover", NoStack: true}},
+		{{K: "recover", Default: true}, {K: "cerr", Ret: false}},
+	}
+	pres := []string{"", "flush", "rcflush", "feflush", "wrote", "jsonbad", "copy", "nocontent"}
+	k := 0
+	for _, caps := range []int{4, 5, 6, 7, 8, 12, 13, 16, 20, 28, 31} {
+		for ci, ch := range chains {
+			for pi, pre := range pres {
+				k++
+				if (k+ci)%2 == 0 && pre != "" && c07PreCat(pre) != "flush" {
+					continue
+				}
+				c := &c07Case{Debug: k%4 == 0, Method: []string{http.MethodGet, http.MethodPost, http.MethodHead, http.MethodGet}[k%4], Layers: ch,
+					NUse: len(ch) * (k % 2), Pre: pre, PreCode: []int{200, 201, 404, 500, 204}[k%5], Caps: caps, CustomEH: k%3 == 0,
+					From: []string{"", "", "", "use", "after"}[(k+pi)%5]}
+				switch (k + ci + pi) % 5 {
+				case 0:
+					c.Panic, c.PanicT = "str", g.atom()
+				case 1:
+					c.Panic, c.Err = "err", &c07Err{K: "http", Code: 418, Msg: &c07Msg{K: "str", T: g.atom()}}
+				case 2:
+					c.Err = &c07Err{K: "plain", T: g.atom()}
+				case 3:
+					c.Err = &c07Err{K: "http", Code: 409, Msg: &c07Msg{K: "str", T: g.atom()}, V: 1, In: &c07Err{K: "plain", T: g.atom()}}
+				default:
+					c.Panic, c.PanicT = "int", g.atom()
+				}
+				same := *c
+				same.Layers, same.Then = nil, nil
+				c.Then = []*c07Case{
+					{Method: http.MethodGet, Caps: 3, Err: &c07Err{K: "plain", T: g.atom()}},
+					&same,
+				}
+				out = append(out, c)
+			}
+		}
+	}
+	return out
+}
+
 func c07Shrink(ci any) []any {
 	c := ci.(*c07Case)
 	var out []any
@@ -2513,14 +2761,16 @@ func c07Shrink(ci any) []any {
 	if c.From != "" {
 		add(func(d *c07Case) { d.From = "" })
 	}
-	if c.In != "" {
+	if c.In != "" && c.In != "noflush" { // (noflush follows from Caps and Pre: the normalisation would put it back)
 		add(func(d *c07Case) { d.In = "" })
 	}
 	if c.Caps != 0 {
 		add(func(d *c07Case) { d.Caps = 0 })
-		if c.Caps == 3 {
-			add(func(d *c07Case) { d.Caps = 1 })
-			add(func(d *c07Case) { d.Caps = 2 })
+		for b := 1; b <= 16; b <<= 1 {
+			if c.Caps&b != 0 && c.Caps != b {
+				b := b
+				add(func(d *c07Case) { d.Caps = c.Caps &^ b })
+			}
 		}
 	}
 	if c.Pre != c07PreCat(c.Pre) {
@@ -2535,7 +2785,7 @@ func c07Shrink(ci any) []any {
 	if c.Panic == "err" && c.In == "" {
 		add(func(d *c07Case) { d.Panic = "" })
 	}
-	if c.Err != nil && c.Via == "" {
+	if c.Err != nil && c.Via == "" && c.In != "noflush" {
 		for _, v := range c07ShrinkErr(c.Err) {
 			v := v
 			add(func(d *c07Case) { d.Err = v })
@@ -2555,7 +2805,7 @@ func c07Shrink(ci any) []any {
 				d.Then[i].Ctx, d.Then[i].WFail, d.Then[i].Skip, d.Then[i].From, d.Then[i].Caps = "", false, nil, "", 0
 			})
 		}
-		if t.Err != nil && t.Via == "" {
+		if t.Err != nil && t.Via == "" && t.In != "noflush" {
 			for _, v := range c07ShrinkErr(t.Err) {
 				v := v
 				add(func(d *c07Case) { d.Then[i].Err = v })
@@ -2633,18 +2883,27 @@ func c07Mutate(r *rand.Rand, ci any) []any {
 			}
 		}
 	}
+	// the same failure on underlying writers with other optional capabilities
+	for _, caps := range []int{0, 4, 5, 8, 12, 16, 3} {
+		if caps != c.Caps {
+			d := *c
+			d.Caps = caps
+			out = append(out, &d)
+		}
+	}
 	return out
 }
 
 func init() {
 	register(&Prop{
 		ID:             "C07",
-		Rule:           "an Echo configuration x a sequence of 1-4 failing requests through that one Echo, served one after the other on one goroutine (pooled context reused), each judged on its own.  Error values as trees: plain | wrap (fmt.Errorf(%w), errors.Join, an application type with Unwrap) | *echo.HTTPError (NewHTTPError / literal / SetInternal / WithInternal) with message kinds {string, default StatusText, error value, json.Marshaler (also one that is an error too), map/struct/slice/named string type, nil} and Internal {none, plain, wrapped, HTTPError, nested}, depth <= 3 (thorough: 5), codes 200-599 incl. 204/304; plain errors are unique markers or one of 18 well-known error VALUES (context.Canceled, context.DeadlineExceeded, io.EOF, io.ErrUnexpectedEOF, http.ErrAbortHandler (returned), http.ErrHandlerTimeout, os.ErrNotExist, sql.ErrNoRows, net.ErrClosed, echo.ErrValidatorNotRegistered, ...); HTTP errors may be built from 16 exported echo variables (echo.ErrInternalServerError, ErrNotFound, ErrUnauthorized, ...) as they are or decorated with SetInternal (changes the variable for all later requests; the harness tracks that symbolically, runs such cases alone and restores the variables) / WithInternal; the router's own 404 / 405 as error sources.  x raised in the route's handler or in a middleware at Pre / Use / group level x returned or panicked (panic values: error, string, int, struct, http.ErrAbortHandler) x a middleware chain of 0-4 layers, each a Recover instance (Recover() or RecoverWithConfig with DisableErrorHandler, Skipper skipping per request, LogErrorFunc returning the same error / another error / nil, every LogLevel, DisablePrintStack, DisableStackAll, StackSize 0/1/64/4096/16384) or a middleware that calls c.Error(err) and returns err or nil, placed at Pre / Use / group / route level x configuration next to Debug that must not matter {Echo.Logger level DEBUG / INFO / WARN / ERROR / OFF, logger prefix + header + output, HideBanner / HidePort, an application JSONSerializer delegating to the default, Validator + Renderer + Binder + IPExtractor, StdLogger + Server timeouts + DisableHTTP2 + ListenerNetwork, a per-request logger at DEBUG}: random on half of the cases plus a fixed family (every level x every knob x Debug off/on) — the model line does not contain them x Echo.HTTPErrorHandler = the default or a counting wrapper around it (number of hand-overs and the error value handed over are checked) x the failing code did {nothing, String, NoContent, Flush, WriteHeader, failed JSON} before failing, or wrote / flushed through the optional-interface probes of the standard library {io.Copy from a source without WriteTo (io.ReaderFrom), io.Copy from a strings.Reader and io.WriteString (io.StringWriter), c.Stream, http.ResponseController.Flush, the FlushError convention} with the implicit commit theirs (200 or a status preset by a failed JSON), on an underlying writer with none / io.ReaderFrom / io.StringWriter+FlushError / all of them (net/http's connection writer has all, httptest.ResponseRecorder none), the failure coming from the handler, from a middleware instead of the handler, or from the innermost Use-level middleware AFTER the handler returned x GET/HEAD/POST/PUT/DELETE/OPTIONS/PATCH x Debug x request context live / cancelled / past its deadline x underlying writer accepting or failing every Write; fixed families: legacy configurations, decision points of the handler (two Internal levels, %w around / inside an HTTPError), every well-known value in four positions x three chains, every exported variable decorated in request 1 and plain errors / panics / the bare variable / router 404+405 afterwards, every LogErrorFunc mode x DisableErrorHandler x outer middleware x LogLevel, Skipper masks over 1-3 (+1 default) instances; every text is a unique marker, a third of the string / error-valued messages and a quarter of the plain / wrapper texts and panic strings followed by one of 19 byte decorations (NUL, 0x01, \\a, \\v, DEL, invalid UTF-8, a surrogate half, a non-printable astral rune, U+2028/2029, C1 controls, BOM, quotes, backslash, HTML characters, ESC sequence, non-ASCII text, format verbs): the oracle decodes the body as JSON and compares message (and Debug detail) with the original text up to U+FFFD for invalid bytes; one request in eight panics INSIDE the commit step of its own response write (a Response.Before hook that panics with any kind of value, or a status code outside 100..999 on a writer that refuses it like net/http); a follow-up request checks the server still serves; thorough: 3000 cases also through a real httptest.Server; non-trivial = tree depth >= 2, or a panic, or committed before the error, or a chain of >= 2 middlewares, or a sequence of requests",
+		Rule:           "an Echo configuration x a sequence of 1-4 failing requests through that one Echo, served one after the other on one goroutine (pooled context reused), each judged on its own.  Error values as trees: plain | wrap (fmt.Errorf(%w), errors.Join, an application type with Unwrap) | *echo.HTTPError (NewHTTPError / literal / SetInternal / WithInternal) with message kinds {string, default StatusText, error value, json.Marshaler (also one that is an error too), map/struct/slice/named string type, nil} and Internal {none, plain, wrapped, HTTPError, nested}, depth <= 3 (thorough: 5), codes 200-599 incl. 204/304; plain errors are unique markers or one of 18 well-known error VALUES (context.Canceled, context.DeadlineExceeded, io.EOF, io.ErrUnexpectedEOF, http.ErrAbortHandler (returned), http.ErrHandlerTimeout, os.ErrNotExist, sql.ErrNoRows, net.ErrClosed, echo.ErrValidatorNotRegistered, ...); HTTP errors may be built from 16 exported echo variables (echo.ErrInternalServerError, ErrNotFound, ErrUnauthorized, ...) as they are or decorated with SetInternal (changes the variable for all later requests; the harness tracks that symbolically, runs such cases alone and restores the variables) / WithInternal; the router's own 404 / 405 as error sources.  x raised in the route's handler or in a middleware at Pre / Use / group level x returned or panicked (panic values: error, string, int, struct, http.ErrAbortHandler) x a middleware chain of 0-4 layers, each a Recover instance (Recover() or RecoverWithConfig with DisableErrorHandler, Skipper skipping per request, LogErrorFunc returning the same error / another error / nil, every LogLevel, DisablePrintStack, DisableStackAll, StackSize 0/1/64/4096/16384) or a middleware that calls c.Error(err) and returns err or nil, placed at Pre / Use / group / route level x configuration next to Debug that must not matter {Echo.Logger level DEBUG / INFO / WARN / ERROR / OFF, logger prefix + header + output, HideBanner / HidePort, an application JSONSerializer delegating to the default, Validator + Renderer + Binder + IPExtractor, StdLogger + Server timeouts + DisableHTTP2 + ListenerNetwork, a per-request logger at DEBUG}: random on half of the cases plus a fixed family (every level x every knob x Debug off/on) — the model line does not contain them x Echo.HTTPErrorHandler = the default or a counting wrapper around it (number of hand-overs and the error value handed over are checked) x the failing code did {nothing, String, NoContent, Flush, WriteHeader, failed JSON} before failing, or wrote / flushed through the optional-interface probes of the standard library {io.Copy from a source without WriteTo (io.ReaderFrom), io.Copy from a strings.Reader and io.WriteString (io.StringWriter), c.Stream, http.ResponseController.Flush, the FlushError convention} with the implicit commit theirs (200 or a status preset by a failed JSON), on an underlying writer with none / io.ReaderFrom / io.StringWriter+FlushError / all of them (net/http's connection writer has all, httptest.ResponseRecorder none), and (round 8) a third of the requests on a writer WITHOUT a Flush method (like http.TimeoutHandler's: plain, with io.ReaderFrom, or flushable through FlushError only), a sixth behind a wrapper that offers nothing but Unwrap(), a sixth with http.Hijacker + http.Pusher (which error handling must never use) plus a fixed family (11 capability sets x 6 chains x 8 things done first x returned / panicked): when the failing code flushes a writer that cannot flush, Response.Flush commits with 200 and then panics with echo's own error — that panic is then what the chain sees (model: Pre.flushUnsupported), the failure coming from the handler, from a middleware instead of the handler, or from the innermost Use-level middleware AFTER the handler returned x GET/HEAD/POST/PUT/DELETE/OPTIONS/PATCH x Debug x request context live / cancelled / past its deadline x underlying writer accepting or failing every Write; fixed families: legacy configurations, decision points of the handler (two Internal levels, %w around / inside an HTTPError), every well-known value in four positions x three chains, every exported variable decorated in request 1 and plain errors / panics / the bare variable / router 404+405 afterwards, every LogErrorFunc mode x DisableErrorHandler x outer middleware x LogLevel, Skipper masks over 1-3 (+1 default) instances; every text is a unique marker, a third of the string / error-valued messages and a quarter of the plain / wrapper texts and panic strings followed by one of 19 byte decorations (NUL, 0x01, \\a, \\v, DEL, invalid UTF-8, a surrogate half, a non-printable astral rune, U+2028/2029, C1 controls, BOM, quotes, backslash, HTML characters, ESC sequence, non-ASCII text, format verbs): the oracle decodes the body as JSON and compares message (and Debug detail) with the original text up to U+FFFD for invalid bytes; one request in eight panics INSIDE the commit step of its own response write (a Response.Before hook that panics with any kind of value, or a status code outside 100..999 on a writer that refuses it like net/http); a follow-up request checks the server still serves; 40 cases (thorough: 3000) also through a real httptest.Server, every other one of them with echo mounted under http.TimeoutHandler (no Flush on its writer); non-trivial = tree depth >= 2, or a panic, or committed before the error, or a chain of >= 2 middlewares, or a sequence of requests",
 		New:            func() any { return &c07Case{} },
 		Gen:            c07Gen,
 		Run:            c07Run,
 		Shrink:         c07Shrink,
 		Mutate:         c07Mutate,
+		Tolerable:      c07Tolerable,
 		Correspondence: "C07.serveAll / C07.serve (lean/EchoModel/C07.lean) vs Echo.ServeHTTP + Echo.DefaultHTTPErrorHandler + Context.Error + middleware.Recover / RecoverWithConfig on a recording http.ResponseWriter",
 	})
 }
